@@ -28,9 +28,16 @@ const CHAR_POOLS: &[&[u32]] = &[
     &[0x3042, 0x3044, 0x3046, 0x4e16, 0x754c],
     &[0x1f600, 0x1f601, 0x61],
     &[0xff21, 0xff22, 0xff23],
+    // characters that decoders, prefilters and "invalid" markers like to treat specially: REPLACEMENT
+    // CHARACTER, byte order mark, non-characters, the last code point of each encoded width
+    &[0xfffd, 0x61, 0xe9],
+    &[0xfffd, 0xfeff, 0xfffe, 0xffff],
+    &[0x7f, 0x7ff, 0xfffd, 0x62],
+    &[0xfffd, 0x10000, 0x61],
 ];
 // characters absent from patterns: below, inside and above typical mapper tables
-const CHAR_EXTRA: &[u32] = &[0x0, 0x7a, 0x62, 0xe8, 0x3043, 0x4e17, 0xd7ff, 0xe000, 0x1f602, 0x10ffff];
+const CHAR_EXTRA: &[u32] =
+    &[0x0, 0x7a, 0x62, 0xe8, 0x3043, 0x4e17, 0xd7ff, 0xe000, 0xfffd, 0x10000, 0x1f602, 0x10ffff];
 
 pub fn pick_alphabet(rng: &mut Rng, var: Var) -> Alpha {
     match var {
